@@ -103,7 +103,7 @@ def formulas(tier):
     L = ("L",)
     for left in (("B", "+", L, L), ("B", "*", L, L)):
         for right in (("B", "+", L, L), ("B", ":", L, L)):
-            for op in ("-", "+"):
+            for op in ("-", "+", "*", ":", "/"):
                 yield {"resp": True, "items": [("T", "+", ("B", op, left, right))]}
     yield {"resp": True, "items": [("T", "+", ("B", "+", L, L)), ("T", "+", L), ("T", "-", ("B", "+", L, L))]}
     # 2. chains of small items with literals
